@@ -56,7 +56,9 @@ pub fn gen_case(t: &mut Tape) -> Case {
     }
     let mod_attrs = gen::gen_attrs(t, 2).join(" ");
     let mod_vis = gen::gen_vis(t);
-    let item = format!("{mod_attrs} {mod_vis} mod the_mod {{\n{}\n}}", items.join("\n"));
+    // the module's own name: ordinary, raw-identifier (keyword or not), unusual casing
+    let mod_name = *t.pick(&["the_mod", "the_mod", "m", "r#match", "r#type", "r#plain", "Mod9", "_m"]);
+    let item = format!("{mod_attrs} {mod_vis} mod {mod_name} {{\n{}\n}}", items.join("\n"));
     let nontrivial = !expected.is_empty() && decoys > 0;
     Case { macro_name, attr, item, trait_name, trait_vis, expected, nontrivial }
 }
@@ -271,8 +273,9 @@ fn e2_module(t: &mut Tape) -> E2Mod {
         }
     }
     let tvis = ["", "pub ", "pub(crate) "][t.choose(3)];
-    let src = format!("#[::entrait::entrait({tvis}TheTrait)]\n{}mod m {{\n{}\n}}\n", ["", "pub ", "pub(crate) "][t.choose(3)], items.join("\n"));
-    let summary = format!("#[entrait({tvis}TheTrait)] mod m {{ {} }}", items.iter().map(|s| s.trim().to_string()).collect::<Vec<_>>().join(" "));
+    let mod_name = *t.pick(&["m", "m", "r#match", "r#type", "r#plain", "Mod9"]);
+    let src = format!("#[::entrait::entrait({tvis}TheTrait)]\n{}mod {mod_name} {{\n{}\n}}\n", ["", "pub ", "pub(crate) "][t.choose(3)], items.join("\n"));
+    let summary = format!("#[entrait({tvis}TheTrait)] mod {mod_name} {{ {} }}", items.iter().map(|s| s.trim().to_string()).collect::<Vec<_>>().join(" "));
     E2Mod { src, expected, not_methods, summary }
 }
 
